@@ -73,6 +73,8 @@ def run_check(pid, tier, seed):
     known = load_known()
     kn = [k for k in known.get("findings", []) if k["property"] == pid]
     L = ldr.Loader(overrides=getattr(pm, "OVERRIDES", {}))
+    from pyvc import session
+    session._LOADER[0] = L
     t_z3 = 10000 if tier == "quick" else 60000
     all_vcs = []
     funcs_ok, funcs_oor = [], []
